@@ -52,8 +52,9 @@ def r17_1(run):
                d.get("constant") == "None" and d.get("dtype") == "None" and d.get("ndmin") == "0", str(d))
     # tensor() -> Tensor(arr_like, dtype=dtype, constant=constant, copy=copy, ndmin=ndmin)
     ctor = [c for c in own_nodes(t.node) if isinstance(c, ast.Call) and dotted(c.func) == "Tensor"]
-    ok = len(ctor) == 1 and all(kw(ctor[0], k) is not None and norm(kw(ctor[0], k)) == k for k in ("dtype", "constant", "copy", "ndmin")) \
-        and ctor[0].args and norm(ctor[0].args[0]) == t.node.args.args[0].arg
+    # (every constructor call of tensor(): early-return guards may duplicate it)
+    ok = len(ctor) >= 1 and all(all(kw(c_, k) is not None and norm(kw(c_, k)) == k for k in ("dtype", "constant", "copy", "ndmin"))
+                                and c_.args and norm(c_.args[0]) == t.node.args.args[0].arg for c_ in ctor)
     run.ob("R17.1", loc(t, ctor[0] if ctor else t.node), t.short, "tensor() forwards dtype/constant/copy/ndmin to Tensor(...) by name", ok,
            "every option reaches the constructor under its own name" if ok else "an option of tensor() is dropped or crossed")
     # astensor
